@@ -116,6 +116,8 @@ def run(ctx):
         pts, fam = gen.dyadic_curve(rng, n, rng.choice(['missratio', 'steps', 'walk', 'convex', 'concave', 'elbows', 'plateau']), scale_exp=0)
         if np.ptp(pts[:, 1]) == 0:
             continue
+        pts, vt = gen.magnitude(rng, pts, 0.3)
+        fam += vt
         tx, ty = rng.choice([0.05, 0.1, 0.125, 0.02, 0.25]), rng.choice([0.05, 0.1, 0.01, 0.2, 0.0625])
         extremes = rng.random() < 0.5
         if rng.random() < 0.5:
